@@ -125,7 +125,7 @@ func Registry() []*Spec {
 	add(Spec{Property: "C19", Name: "VerifC19_Diff", Pkg: "alt",
 		Quick: map[string]int{"MAXIGN": 1, "LEAFKINDS": 3}, Thorough: map[string]int{"MAXIGN": 2, "LEAFKINDS": 3},
 		Covers: []string{"equal", "different"}, UnitDepth: 4,
-		Note: "alt.Diff/Compare on 22 shape pairs (depth <= 2, <= 3 leaves, symbolic a/b keys) with symbolic small leaves of LEAFKINDS kinds (int64, integral float64, nil, int; VerifC19_Match thorough also non-integral float, string); the first leaf of each tree may also be a uint64, small or 2^63 and 0..MAXIGN ignore paths from a menu of 9 (indexes, keys, wildcards, 2-element paths); the same trees held as gen nodes (alt.Generify) give the same Diff paths and the same Compare verdict"})
+		Note: "alt.Diff/Compare on 23 shape pairs (the 23rd: two rows with int64 leaves and two ignore paths naming different members at different indexes) (depth <= 2, <= 3 leaves, symbolic a/b keys) with symbolic small leaves of LEAFKINDS kinds (int64, integral float64, nil, int; VerifC19_Match thorough also non-integral float, string); the first leaf of each tree may also be a uint64, small or 2^63 and 0..MAXIGN ignore paths from a menu of 9 (indexes, keys, wildcards, 2-element paths); the same trees held as gen nodes (alt.Generify) give the same Diff paths and the same Compare verdict"})
 	add(Spec{Property: "C19", Name: "VerifC19_Match", Pkg: "alt",
 		Quick: map[string]int{"LEAFKINDS": 4}, Thorough: map[string]int{"LEAFKINDS": 6},
 		Covers: []string{"match", "nomatch"}, UnitDepth: 3,
